@@ -39,7 +39,7 @@ func runC07(w *World) {
 		}
 	}
 	dominant := L > R || (L == R && localAS > remoteAS)
-	clause := Pick(w, "clause", "A-seq", "A-conc", "A-race", "A-seq", "B1", "B2", "B3", "B4", "A-conc", "A-race")
+	clause := Pick(w, "clause", "A-seq", "A-conc", "A-race", "A-seq", "B1", "B2", "B3", "B4", "A-conc", "A-race", "A-down", "A-down")
 	s := NewStd1(w, Std1Opts{Dir: DirOut, LocalID: localID, RemoteID: U32ToIP(R), LocalAS: localAS, RemoteAS: remoteAS,
 		LocalHold: 90, RemoteHold: 90, IdleHold: 2 * time.Second, Retry: 30 * time.Second,
 		Configure: func(p *PeerH) { p.Plug.Oracle = true }})
@@ -90,7 +90,7 @@ func runC07(w *World) {
 	}
 
 	switch clause {
-	case "A-seq", "A-conc", "A-race":
+	case "A-seq", "A-conc", "A-race", "A-down":
 		// open both connections, in a drawn order
 		var O, I *Conn
 		if w.Draw(2, "openorder") == 0 {
@@ -172,6 +172,29 @@ func runC07(w *World) {
 			w.Go("ka-first", func() { first.SendSeg(KeepaliveFrame()) })
 			sendOpen(second)
 			w.Quiesce()
+		case "A-down":
+			// the first connection (OpenConfirm) goes down by itself at the very
+			// moment the second one asks for OpenConfirm: the kill request races
+			// with the victim's own way down
+			sendOpen(first)
+			if f := first.WaitFrame(time.Minute); f == nil || f.Type != MsgKeepalive {
+				bail("first-open-refused")
+				return
+			}
+			w.Quiesce()
+			how := w.Draw(3, "downhow")
+			w.Go("down-first", func() {
+				switch how {
+				case 0:
+					first.FIN()
+				case 1:
+					first.RST()
+				default:
+					first.SendSeg(MkNotif(6, 0, nil))
+				}
+			})
+			sendOpen(second)
+			w.Quiesce()
 		}
 		w.NonTrivial = true
 		w.Probe("cell:" + clause + ":" + cell)
@@ -183,6 +206,35 @@ func runC07(w *World) {
 			if c.LocalClosed() {
 				nClosed++
 			}
+		}
+		if clause == "A-down" {
+			// the first connection is gone either way; if the second one is the
+			// connection the dominance rule keeps, it must survive and be usable
+			if !first.LocalClosed() {
+				w.Violate("C07/down-race/first-not-closed", "%s: the connection that failed was not closed by corebgp", cell)
+				return
+			}
+			if p.Plug.NEst != 0 {
+				w.Violate("C07/collision/established-without-keepalive", "a session was reported Established although the remote sent no KEEPALIVE")
+				return
+			}
+			if second != surv {
+				w.Probe("down-race:second-is-dominance-loser")
+				e.FinishRun()
+				return
+			}
+			if second.LocalClosed() {
+				w.Violate("C07/down-race/survivor-closed", "%s: the second connection is the one the dominance rule keeps, the first one failed by itself, yet corebgp closed the second one too: %s", cell, descFrames(second.AllFrames()))
+				return
+			}
+			second.SendSeg(KeepaliveFrame())
+			w.Quiesce()
+			if p.Plug.NEst != 1 || !p.Plug.IsUp() {
+				w.Violate("C07/down-race/survivor-not-established", "%s: the surviving connection %s did not become Established on the remote's KEEPALIVE (OnEstablished count %d, closed=%v, frames %s)", cell, second, p.Plug.NEst, second.LocalClosed(), descFrames(second.AllFrames()))
+				return
+			}
+			finish(second)
+			return
 		}
 		if clause == "A-race" {
 			// safety core: exactly one survives, the other got Cease + close
